@@ -873,3 +873,108 @@ func (r *EngineRunner) holeBatch(nKeys, blocks int) string {
 	}
 	return "ok"
 }
+
+// orphanBatch: E orphanbatch <nkeys>.  A database of its own (standard I/O, a small file limit): nkeys synced keys; then,
+// up to 300 times: batch A rewrites every key (its pieces overflow and are flushed as it goes) and its Commit meets an
+// operating system that refuses the write (the error is reported); batch B, begun right after, puts one more key and
+// commits.  After a restart the keys of A show all old values or all new values - whatever ids the engine gave the two
+// batches.  (Pieces of A that reached the disk are orphans; they may not be adopted by the finished-record of B.)
+func (r *EngineRunner) orphanBatch(nKeys int) string {
+	saved1, saved2, saved3 := fio.VerifEvent, kv.VerifFsEvent, kv.VerifMergeFile
+	fio.VerifEvent, kv.VerifFsEvent, kv.VerifMergeFile = nil, nil, nil
+	defer func() { fio.VerifEvent, kv.VerifFsEvent, kv.VerifMergeFile = saved1, saved2, saved3 }()
+	base, err := os.MkdirTemp(r.Root, "orph")
+	if err != nil {
+		return "skip"
+	}
+	defer os.RemoveAll(base)
+	key := func(i int) []byte { return []byte(fmt.Sprintf("key-%02d", i)) }
+	oldVal := func(i int) []byte { return []byte(fmt.Sprintf("old-%02d", i)) }
+	newVal := func(round, i int) []byte { return bytes.Repeat([]byte{byte('A' + i)}, 60+round%7) }
+	sameID, rounds, inj := 0, 0, 0
+	for round := 0; round < 300 && sameID < 3; round++ {
+		rounds++
+		dir := filepath.Join(base, fmt.Sprintf("db%d", round))
+		opts := kv.DefaultOptions
+		opts.DirPath = dir
+		opts.DataFileSize = 300
+		opts.FileIOType = fio.StandardFIO
+		opts.DataFileMergeRatio = 0
+		db, err := kv.Open(opts)
+		if err != nil {
+			return "skip"
+		}
+		for i := 0; i < nKeys; i++ {
+			_ = db.Put(key(i), oldVal(i))
+		}
+		_ = db.Sync()
+		a := db.NewBatch(kv.BatchOptions{})
+		ida := a.VerifBatchID()
+		for i := 0; i < nKeys; i++ {
+			_ = a.Put(key(i), newVal(round, i))
+		}
+		// the active file is the newest one in the directory (the batch holds the engine lock: no accessor may be used)
+		var amax uint32
+		found := false
+		if ents, err := os.ReadDir(dir); err == nil {
+			for _, e := range ents {
+				var id uint32
+				if n, _ := fmt.Sscanf(e.Name(), "%d", &id); n == 1 && strings.HasSuffix(e.Name(), string(datafile.DataFileSuffix)) && (!found || id >= amax) {
+					amax, found = id, true
+				}
+			}
+		}
+		var cerr error
+		injected := found && r.withRefusedWritesIn(dir, datafile.GetFileName(dir, amax, datafile.DataFileSuffix), func() { cerr = a.Commit() })
+		if !injected {
+			_ = a.Commit()
+			_ = db.Close()
+			_ = os.RemoveAll(dir)
+			continue
+		}
+		b := db.NewBatch(kv.BatchOptions{})
+		idb := b.VerifBatchID()
+		_ = b.Put([]byte("other"), []byte("x"))
+		berr := b.Commit()
+		_ = db.Close()
+		if cerr == nil || berr != nil {
+			_ = os.RemoveAll(dir)
+			continue
+		}
+		inj++
+		if ida == idb {
+			sameID++
+		}
+		db2, err := kv.Open(opts)
+		if err != nil {
+			r.fail("C04", "a batch whose Commit was refused, a committed batch, a restart: Open failed: %s", EngErr(err))
+			_ = os.RemoveAll(dir)
+			continue
+		}
+		nNew, nOld := 0, 0
+		var state []string
+		for i := 0; i < nKeys; i++ {
+			v, err := db2.Get(key(i))
+			switch {
+			case err == nil && bytes.Equal(v, newVal(round, i)):
+				nNew++
+				state = append(state, "new")
+			case err == nil && bytes.Equal(v, oldVal(i)):
+				nOld++
+				state = append(state, "old")
+			default:
+				state = append(state, "other")
+			}
+		}
+		_ = db2.Close()
+		_ = os.RemoveAll(dir)
+		if nNew != nKeys && nOld != nKeys {
+			r.fail("C04", "a batch of %d puts flushed in pieces whose Commit failed (batch id %d), then a committed batch (batch id %d), then a restart: the failed batch is visible in part: %v", nKeys, ida, idb, state)
+			break
+		}
+	}
+	if inj == 0 {
+		return "skip"
+	}
+	return fmt.Sprintf("ok # rounds=%d refused-commits=%d same-id=%d", rounds, inj, sameID)
+}
